@@ -2,7 +2,8 @@
 //!   c08 tie N        -> JSON lines, one generated case each:
 //!        {"line": compact case (fill, program, stack, observed result), "src": uiua source,
 //!         "err": error text or null, "ops": [...], "first": first primitive}
-//!   c08 run          -> reads compact "fill prog stack" lines on stdin, prints observed results
+//!   c08 tie N FILE   -> the same, after replaying the regression corpus FILE (lines "num|byte fill prog stack")
+//!   c08 run [loud]   -> replays corpus lines from stdin (loud: panic message and location on stderr)
 //! Compact grammar (whitespace separated tokens):
 //!   case  := fill prog stack result
 //!   fill  := f0 | f1 elemty int            (scalar number / character fill)
@@ -56,6 +57,20 @@ impl A {
             }
             D::C(v) => chars(&self.shape, &v.iter().map(|c| char::from_u32(*c).unwrap()).collect::<Vec<_>>()),
             D::B(v) => boxes(&self.shape, v.iter().map(|a| a.to_value(r)).collect()),
+        }
+    }
+    /// conversion with a fixed number storage (regression corpus): byte storage where possible
+    fn to_value_storage(&self, want_byte: bool) -> Value {
+        match &self.d {
+            D::N(v) => {
+                if want_byte && v.iter().all(|x| (0..=255).contains(x)) {
+                    byte(&self.shape, &v.iter().map(|x| *x as u8).collect::<Vec<_>>())
+                } else {
+                    num(&self.shape, &v.iter().map(|x| *x as f64).collect::<Vec<_>>())
+                }
+            }
+            D::C(v) => chars(&self.shape, &v.iter().map(|c| char::from_u32(*c).unwrap()).collect::<Vec<_>>()),
+            D::B(v) => boxes(&self.shape, v.iter().map(|a| a.to_value_storage(want_byte)).collect()),
         }
     }
     fn from_value(v: &Value) -> Option<A> {
@@ -937,6 +952,137 @@ fn finish_case(g: &mut Gen, fill: Fill, mut ops: Vec<Op>, init: Vec<A>, init_val
     Some((line, src, err, ops.iter().map(|o| o.name()).collect(), optoks))
 }
 
+// ---------------------------------------------------------------- compact parser (regression corpus)
+
+struct Tk<'a> {
+    t: Vec<&'a str>,
+    i: usize,
+}
+impl<'a> Tk<'a> {
+    fn next(&mut self) -> &'a str {
+        let x = self.t[self.i];
+        self.i += 1;
+        x
+    }
+    fn int(&mut self) -> i64 {
+        self.next().parse().expect("integer token")
+    }
+    fn arr(&mut self) -> A {
+        assert_eq!(self.next(), "a");
+        let ty = self.next();
+        let rank = self.int() as usize;
+        let shape: Vec<usize> = (0..rank).map(|_| self.int() as usize).collect();
+        let n: usize = shape.iter().product();
+        let d = match ty {
+            "n" => D::N((0..n).map(|_| self.int()).collect()),
+            "c" => D::C((0..n).map(|_| self.int() as u32).collect()),
+            _ => D::B((0..n).map(|_| self.arr()).collect()),
+        };
+        A { shape, d }
+    }
+}
+
+/// "fill prog stack" (the head of a compact case; a trailing result is ignored)
+fn parse_head(line: &str) -> (Fill, Vec<Op>, Vec<A>) {
+    let mut tk = Tk { t: line.split_whitespace().collect(), i: 0 };
+    let fill = match tk.next() {
+        "f0" => Fill::None,
+        _ => {
+            let t = tk.next();
+            let v = tk.int();
+            if t == "n" { Fill::N(v) } else { Fill::C(v as u32) }
+        }
+    };
+    assert_eq!(tk.next(), "p");
+    let k = tk.int();
+    let mut ops = Vec::new();
+    for _ in 0..k {
+        let o = tk.next();
+        if o == "OLit" {
+            let a = tk.next();
+            let ai = AOPS.iter().position(|x| x.0 == a).expect("aop");
+            let sc = tk.next() == "1";
+            let m = tk.int();
+            let amts = (0..m)
+                .map(|_| match tk.next() {
+                    "inf" => Amt::Inf(false),
+                    "ninf" => Amt::Inf(true),
+                    "frac" => Amt::Frac(1.5),
+                    "nan" => Amt::NaN,
+                    s => Amt::I(s[1..].parse().expect("amount")),
+                })
+                .collect();
+            ops.push(Op::Lit(ai, sc, amts));
+        } else {
+            ops.push(Op::Plain(OPS.iter().position(|x| x.0 == o).expect("op")));
+        }
+    }
+    assert_eq!(tk.next(), "s");
+    let k = tk.int();
+    let stack = (0..k).map(|_| tk.arr()).collect();
+    (fill, ops, stack)
+}
+
+fn print_case(c: &Case) {
+    let (line, src, err, ops, steps) = c;
+    // "steps": the op tokens followed by the observed stack after each single op
+    println!(
+        "{{\"line\":{},\"src\":{},\"err\":{},\"ops\":[{}],\"first\":{},\"steps\":[{}]}}",
+        jstr(line),
+        jstr(src),
+        err.as_deref().map(jstr).unwrap_or("null".into()),
+        ops.iter().map(|o| jstr(o)).collect::<Vec<_>>().join(","),
+        jstr(&ops[0]),
+        steps.iter().map(|o| jstr(o)).collect::<Vec<_>>().join(",")
+    );
+}
+
+/// replay corpus lines ("num|byte <fill prog stack>"); every step is observed like a generated case
+fn replay(g: &mut Gen, text: &str, loud: bool) -> usize {
+    let mut n = 0;
+    for l in text.lines() {
+        let l = l.trim();
+        if l.is_empty() || l.starts_with('#') {
+            continue;
+        }
+        let (st, head) = l.split_once(' ').unwrap();
+        let (fill, ops, init) = parse_head(head);
+        let vals: Vec<Value> = init.iter().map(|a| a.to_value_storage(st == "byte")).collect();
+        if loud {
+            // no panic hook replacement: the panic message and location go to stderr
+            let mut env = uiua::Uiua::with_safe_sys();
+            for a in vals.iter().rev() {
+                env.push(a.clone());
+            }
+            let r = env.run_str(&prog_src(&fill, &ops));
+            eprintln!("{} -> {:?}", prog_src(&fill, &ops), r.map(|_| env.take_stack()).map_err(|e| e.to_string()));
+            continue;
+        }
+        // single steps first (for localisation), then the whole program
+        let k = ops.len();
+        let mut steps = Vec::new();
+        let mut cur: Option<Vec<Value>> = Some(vals.clone());
+        for j in 0..k {
+            cur = match &cur {
+                Some(stv) => observe(&prog_src(&fill, &ops[j..j + 1]), stv).ok(),
+                None => None,
+            };
+            steps.push(step_tok(&cur));
+            if cur.is_none() {
+                break;
+            }
+        }
+        if let Some(mut c) = finish_case(g, fill, ops, init, vals, k) {
+            let kk = c.3.len();
+            c.4.truncate(kk);
+            c.4.extend(steps);
+            print_case(&c);
+            n += 1;
+        }
+    }
+    n
+}
+
 fn main() {
     let args: Vec<String> = std::env::args().collect();
     let mode = args.get(1).map(|s| s.as_str()).unwrap_or("tie");
@@ -947,29 +1093,29 @@ fn main() {
             let mut g = Gen { r: Rng::new(seed ^ 0xC08), shape_ctr: 0, all_shapes: all_shapes() };
             let mut emitted = 0;
             let mut rejected = 0usize;
+            // the regression corpus (former failing inputs) is replayed first
+            let corpus = args.get(3).map(|p| std::fs::read_to_string(p).expect("corpus file")).unwrap_or_default();
+            let replayed = replay(&mut g, &corpus, false);
             while emitted < n {
                 match gen_case(&mut g) {
-                    Some((line, src, err, ops, steps)) => {
-                        let first = ops[0].clone();
-                        // "steps": the op tokens followed by the observed stack after each single op
-                        println!(
-                            "{{\"line\":{},\"src\":{},\"err\":{},\"ops\":[{}],\"first\":{},\"steps\":[{}]}}",
-                            jstr(&line),
-                            jstr(&src),
-                            err.as_deref().map(jstr).unwrap_or("null".into()),
-                            ops.iter().map(|o| jstr(o)).collect::<Vec<_>>().join(","),
-                            jstr(&first),
-                            steps.iter().map(|o| jstr(o)).collect::<Vec<_>>().join(",")
-                        );
+                    Some(c) => {
+                        print_case(&c);
                         emitted += 1;
                     }
                     None => rejected += 1,
                 }
             }
-            println!("{{\"rejected\":{rejected},\"shapes_swept\":{}}}", g.shape_ctr.min(g.all_shapes.len()));
+            println!("{{\"rejected\":{rejected},\"corpus\":{replayed},\"shapes_swept\":{}}}", g.shape_ctr.min(g.all_shapes.len()));
+        }
+        "run" => {
+            // c08 run [loud] < corpus lines
+            let mut text = String::new();
+            std::io::Read::read_to_string(&mut std::io::stdin(), &mut text).unwrap();
+            let mut g = Gen { r: Rng::new(seed ^ 0xC08), shape_ctr: 0, all_shapes: all_shapes() };
+            replay(&mut g, &text, args.get(2).map(|s| s == "loud").unwrap_or(false));
         }
         _ => {
-            eprintln!("usage: c08 tie N");
+            eprintln!("usage: c08 tie N [corpus-file] | c08 run [loud] < corpus-lines");
             std::process::exit(2);
         }
     }
